@@ -355,11 +355,22 @@ where
     }
 }
 
+fn light_mint<A>(w: &VW, step: u64) -> Vec<J>
+where
+    A: AOps + AKey<Entity<A>> + AKey<EntityAny> + ATyped<Entity<A>>,
+{
+    A::arch(w).entities().iter().map(|e| match guard(|| mint_one::<A>(w, *e, step)) {
+        Ok(Some(d)) => J::A(vec![jtok(tok(*e)), J::A(vec![J::s("d"), jtok(dtok(d))])]),
+        Ok(None) => J::A(vec![jtok(tok(*e)), jn()]),
+        Err(()) => J::A(vec![jtok(tok(*e)), jp()]),
+    }).collect()
+}
+
 fn observe_arch<A>(w: &mut VW, step: u64, max_dump: usize, minted: &mut Vec<EntityDirectAny>) -> J
 where
     A: AOps + AKey<Entity<A>> + AKey<EntityAny> + ATyped<Entity<A>>,
 {
-    let sp = ((step + A::IDX as u64) % 11) as u8;
+    let sp = ((step + A::IDX as u64) % 13) as u8;
     let mv = step % 4;
     let (len, cap, emp) = { let a = A::arch(w); (a.len(), a.capacity(), a.is_empty()) };
     let snap = guard(|| A::snapshot(w, sp));
@@ -617,6 +628,14 @@ impl H {
     }
 
     /// Append registry accounting and the observation of every existing world, then write.
+    /// emit with a full observation even inside a quiet burst (world-level operations need it)
+    pub fn emit_full(&mut self, ev: Vec<(&'static str, J)>) {
+        let saved = self.light;
+        self.light = false;
+        self.emit(ev);
+        self.light = saved;
+    }
+
     pub fn emit(&mut self, mut ev: Vec<(&'static str, J)>) {
         let drops = reg::take_drops();
         let clones = reg::take_clones();
@@ -632,9 +651,12 @@ impl H {
             if self.worlds[wi].is_some() {
                 if self.light {
                     let w = self.worlds[wi].as_ref().unwrap();
+                    let step = self.step;
                     let ar: Vec<J> = (0..NARCH).map(|ai| {
                         let (len, cap, emp): (usize, usize, bool) = with_arch!(ai, A => { let a = A::arch(w); (a.len(), a.capacity(), a.is_empty()) });
-                        J::O(vec![("a", ji(ai)), ("len", ji(len)), ("cap", ji(cap)), ("emp", J::B(emp))])
+                        // mint-all stays (to_direct only): the contract must know every current direct handle
+                        let mint: Vec<J> = with_arch!(ai, A => light_mint::<A>(w, step));
+                        J::O(vec![("a", ji(ai)), ("len", ji(len)), ("cap", ji(cap)), ("emp", J::B(emp)), ("mint", J::A(mint))])
                     }).collect();
                     obs.push(J::O(vec![("w", ji(wi)), ("light", J::B(true)), ("ar", J::A(ar))]));
                 } else {
@@ -715,7 +737,7 @@ impl H {
             Ok(w) => { self.worlds[wi] = Some(w); self.pool[wi].clear(); self.dpool[wi].clear(); jt("ok") }
             Err(()) => jp(),
         };
-        self.emit(vec![
+        self.emit_full(vec![
             ("op", J::s("init")),
             ("w", ji(wi)),
             ("caps", J::A(caps.iter().map(|c| ji(*c)).collect())),
@@ -940,7 +962,7 @@ impl H {
             }
             Err(()) => jp(),
         };
-        self.emit(vec![("op", J::s("clone")), ("w", ji(src)), ("dst", ji(dst)), ("fault", J::B(fault.is_some())), ("out", out)]);
+        self.emit_full(vec![("op", J::s("clone")), ("w", ji(src)), ("dst", ji(dst)), ("fault", J::B(fault.is_some())), ("out", out)]);
     }
 
     /// `dst.clone_from(&src)` into an EXISTING world (Clone::clone_from may be overridden to recycle
@@ -957,7 +979,28 @@ impl H {
             }
             Err(()) => { self.pool[dst].clear(); self.dpool[dst].clear(); jp() }
         };
-        self.emit(vec![("op", J::s("clone")), ("w", ji(src)), ("dst", ji(dst)), ("into", J::B(true)), ("fault", J::B(false)), ("out", out)]);
+        self.emit_full(vec![("op", J::s("clone")), ("w", ji(src)), ("dst", ji(dst)), ("into", J::B(true)), ("fault", J::B(false)), ("out", out)]);
+    }
+
+    /// `dst.<arch a>.clone_from(&src.<arch a>)`: one archetype of dst becomes a copy of src's; with an
+    /// injected Clone or Drop fault the panic is caught and the world keeps being used.
+    pub fn op_arch_clone_from(&mut self, src: usize, dst: usize, ai: usize, clone_fault: Option<u32>, drop_fault: Option<u32>) {
+        reg::with(|r| { r.clone_fault = clone_fault; r.drop_fault = drop_fault; });
+        let mut d = self.worlds[dst].take().unwrap();
+        let r = { let s = self.worlds[src].as_ref().unwrap(); guard(|| with_arch!(ai, A => A::arch_clone_from(&mut d, s))) };
+        reg::clear_faults();
+        self.worlds[dst] = Some(d);
+        if r.is_ok() {
+            // handles of that archetype issued by src are now handles of dst too
+            let id = ARCH_IDS[ai] as u32;
+            let extra: Vec<Tok> = self.pool[src].iter().copied().filter(|t| t.0 & 0xff == id).collect();
+            for t in extra { if !self.pool[dst].contains(&t) { self.pool[dst].push(t); } }
+            let dx: Vec<EntityDirectAny> = self.dpool[src].iter().copied().filter(|x| x.archetype_id() as u32 == id).collect();
+            for x in dx { self.remember_direct(dst, x); }
+        }
+        self.emit_full(vec![("op", J::s("arch_clone_from")), ("w", ji(src)), ("dst", ji(dst)), ("a", ji(ai)),
+                       ("fault", J::B(clone_fault.is_some() || drop_fault.is_some())),
+                       ("out", if r.is_ok() { jt("ok") } else { jp() })]);
     }
 
     pub fn op_drop(&mut self, wi: usize, fault: Option<u32>) {
@@ -967,7 +1010,7 @@ impl H {
         reg::clear_faults();
         self.pool[wi].clear();
         self.dpool[wi].clear();
-        self.emit(vec![("op", J::s("drop_world")), ("w", ji(wi)), ("fault", J::B(fault.is_some())), ("out", if r.is_ok() { jt("ok") } else { jp() })]);
+        self.emit_full(vec![("op", J::s("drop_world")), ("w", ji(wi)), ("fault", J::B(fault.is_some())), ("out", if r.is_ok() { jt("ok") } else { jp() })]);
     }
 
     pub fn op_clear_events(&mut self, wi: usize, scope: Option<usize>) {
@@ -989,7 +1032,7 @@ impl H {
     pub fn op_preset(&mut self, wi: usize, ai: usize, slot: u32, arch: u32) {
         let w = self.worlds[wi].as_mut().unwrap();
         let r = guard(|| with_arch!(ai, A => A::preset(w, slot, arch)));
-        self.emit(vec![
+        self.emit_full(vec![
             ("op", J::s("preset")), ("w", ji(wi)), ("a", ji(ai)),
             ("slot", jver(slot)), ("arch", jver(arch)),
             ("out", if r.is_ok() { jt("ok") } else { jp() }),
